@@ -1,4 +1,5 @@
 import CwPlus.Lemmas.Cw4Stake
+import CwPlus.Lemmas.Snapshot
 /-!
 # C10 — cw4-stake: stakes are fully backed, weight follows stake, exit only after the delay
 
@@ -682,5 +683,696 @@ example : updateMembership demoWorld.st 200 "alice" 17 = .ok (um demoWorld.st 20
   update_total_ok_of_room (by rfl) (by decide) (by decide)
 example : updateMembership bigBonded.st 200 "alice" 18446744073709551611 = .error "overflow.u64" :=
   update_total_overflow_of_no_room (new := some 18446744073709551611) (by rfl) (by decide) (by decide)
+
+/-! # History-level ledgers (review round)
+
+The theorems above are per transaction or about the books as a whole.  The ones below follow one address
+through an arbitrary history: which claims it holds (`claims_ledger`), where every paid claim came from and
+that its whole period had passed (`paid_after_period`), what happened to its balance (`balance_frame`), and
+the exact accounting `paid out + unreleased claims + stake = bonded` (`value_conservation`).  They also
+remove two assumptions of the first round: the contract may hold funds before the history starts
+(`backing_from`), and the `u128` bound of `claim_succeeds` is discharged from the token's supply
+(`supply_conserved`, `claim_succeeds_run`). -/
+
+/-! ## backing from any backed world -/
+
+/-- **C10 `backing`, any start**: from *any* backed world — in particular a contract that was funded
+before or at its instantiation, `held = extra = e` — every history keeps the books backed.  (`backing` is
+the instance `World.init`, where the contract starts with nothing.) -/
+theorem backing_from {w : World} (hi : Backed w) (ops : List (Block × Op)) : Backed (run w ops) :=
+  run_inv Backed (fun _ _ _ _ _ hi ht => backing_tx hi ht) hi ops
+
+/-- A contract instantiated while already holding `e` stake tokens (sent to its address beforehand or
+attached to the instantiation): those tokens are plain transfers. -/
+def initFunded (st : State) (e : Nat) (bal : AMap Addr Nat) (acc : List Addr) : World :=
+  { st := st, held := e, bal := bal, extra := e, accepting := acc }
+
+/-- **C10 `backing`, pre-funded contract**: holdings ≥ Σ stakes + Σ unreleased claims after every history
+of a contract that started with any amount `e` of the stake token; the surplus is exactly `e` plus the
+later plain transfers. -/
+theorem backing_prefunded {m : InstMsg} {st : State} (h : instantiate m = .ok st) (e : Nat) (bal : AMap Addr Nat)
+    (acc : List Addr) (ops : List (Block × Op)) :
+    Backed (run (initFunded st e bal acc) ops) ∧
+    stakeTotal (run (initFunded st e bal acc) ops).st + claimsTotal (run (initFunded st e bal acc) ops).st
+      ≤ (run (initFunded st e bal acc) ops).held := by
+  have h0 : Backed (initFunded st e bal acc) := by
+    simp [instantiate] at h
+    obtain ⟨adm, _, rfl⟩ := h
+    simp [Backed, initFunded, stakeTotal, claimsTotal]
+  have := backing_from h0 ops
+  refine ⟨this, ?_⟩
+  unfold Backed at this
+  omega
+
+/-! ## balance_frame, held_frame -/
+
+/-- Stake tokens the transaction `op` sends to the contract as a plain transfer of `a`. -/
+def donated (op : Op) (a : Addr) : Nat :=
+  match op with
+  | .donate snd amt => if snd = a then amt else 0
+  | _ => 0
+
+/-- What a `Claim` by `a` at `blk` pays to `a` (all its matured claims); 0 for every other transaction. -/
+def claimDue (w : World) (blk : Block) (op : Op) (a : Addr) : Nat :=
+  match op with
+  | .claim snd => if snd = a then amountSum (matured blk (claimsOf w.st a)) else 0
+  | _ => 0
+
+theorem balOf_set (w : World) (k x : Addr) (v : Nat) :
+    ((w.bal.set k v).get? x).getD 0 = if k = x then v else balOf w x := by
+  rw [AMap.get?_set]; split <;> simp [balOf]
+
+theorem deposited_bal {w w' : World} {h : Nat} {snd : Addr} {amt : Nat} {out : List Out}
+    (hd : Deposited w w' h snd amt out) (x : Addr) :
+    balOf w' x = (if snd = x then balOf w x - amt else balOf w x) ∧ amt ≤ balOf w snd := by
+  obtain ⟨new, hle, _, _, _, _, _, hb, _⟩ := hd
+  refine ⟨?_, hle⟩
+  unfold balOf at *
+  rw [hb, AMap.get?_set]
+  split
+  · rename_i e; subst e; simp
+  · rfl
+
+/-- **C10 `stake_frame`, the payer's side ("by exactly the amount")**: a successful transaction changes
+the stake-token balance of an account `x` only when `x` itself signed it, and then by exactly the amount it
+bonded (`Bond` / cw20 `Send`), transferred to the contract, or was paid by its own `Claim` (the sum of its
+matured claims).  Nobody else's balance moves; unbonding moves no tokens. -/
+theorem balance_frame {w w' : World} {blk : Block} {op : Op} {out : List Out}
+    (h : tx w blk op = .ok (w', out)) (x : Addr) :
+    balOf w' x + bonded op x + donated op x = balOf w x + claimDue w blk op x ∧
+    bonded op x + donated op x ≤ balOf w x := by
+  cases op with
+  | bond snd coins =>
+    obtain ⟨d, amt, _, rfl, _, hd⟩ := tx_bond_ok h
+    obtain ⟨e, hle⟩ := deposited_bal hd x
+    rw [e]
+    simp only [bonded, donated, claimDue]
+    split
+    · rename_i e; subst e; simp; omega
+    · simp
+  | send snd token amt ok =>
+    obtain ⟨_, _, hd⟩ := tx_send_ok h
+    obtain ⟨e, hle⟩ := deposited_bal hd x
+    rw [e]
+    simp only [bonded, donated, claimDue]
+    split
+    · rename_i e; subst e; simp; omega
+    · simp
+  | receive snd sender amt ok => exact (tx_receive_never h).elim
+  | unbond snd amt =>
+    obtain ⟨new, _, _, _, _, _, hb, _⟩ := tx_unbond_ok h
+    simp [bonded, donated, claimDue, balOf, hb]
+  | claim snd =>
+    obtain ⟨_, _, _, _, _, hb, _⟩ := tx_claim_ok h
+    simp only [bonded, donated, claimDue]
+    unfold balOf at *
+    rw [hb, AMap.get?_set]
+    split
+    · rename_i e; subst e; simp
+    · simp
+  | updateAdmin snd a => obtain ⟨_, _, adm, rfl⟩ := tx_updateAdmin_ok h; simp [bonded, donated, claimDue, balOf]
+  | addHook snd a => obtain ⟨_, _, _, rfl⟩ := tx_addHook_ok h; simp [bonded, donated, claimDue, balOf]
+  | removeHook snd a => obtain ⟨_, _, _, rfl⟩ := tx_removeHook_ok h; simp [bonded, donated, claimDue, balOf]
+  | donate snd amt =>
+    obtain ⟨hle, _, rfl⟩ := tx_donate_ok h
+    simp only [bonded, donated, claimDue]
+    unfold balOf at *
+    simp only [AMap.get?_set]
+    split
+    · rename_i e; subst e; simp; omega
+    · simp
+
+/-- **C10 `only_configured_token`, ledger form**: the contract's holdings in the stake token rise only by
+what the signer bonded (one coin of the configured denom / a `Send` of the configured cw20 token — see
+`only_configured_token`) or plainly transferred, and fall only by what a `Claim` pays its signer. -/
+theorem held_frame {w w' : World} {blk : Block} {op : Op} {out : List Out}
+    (h : tx w blk op = .ok (w', out)) :
+    w'.held + claimDue w blk op (Op.sender op) =
+      w.held + bonded op (Op.sender op) + donated op (Op.sender op) ∧
+    claimDue w blk op (Op.sender op) ≤ w.held := by
+  cases op with
+  | bond snd coins =>
+    obtain ⟨d, amt, _, rfl, _, hd⟩ := tx_bond_ok h
+    have := (deposited_books hd).2.2.1
+    simp [bonded, donated, claimDue, Op.sender, this]
+  | send snd token amt ok =>
+    obtain ⟨_, _, hd⟩ := tx_send_ok h
+    have := (deposited_books hd).2.2.1
+    simp [bonded, donated, claimDue, Op.sender, this]
+  | receive snd sender amt ok => exact (tx_receive_never h).elim
+  | unbond snd amt =>
+    obtain ⟨new, _, _, _, _, hh, _⟩ := tx_unbond_ok h
+    simp [bonded, donated, claimDue, hh]
+  | claim snd =>
+    obtain ⟨_, hle, _, _, hh, _⟩ := tx_claim_ok h
+    simp only [bonded, donated, claimDue, Op.sender, if_true]
+    omega
+  | updateAdmin snd a => obtain ⟨_, _, adm, rfl⟩ := tx_updateAdmin_ok h; simp [bonded, donated, claimDue]
+  | addHook snd a => obtain ⟨_, _, _, rfl⟩ := tx_addHook_ok h; simp [bonded, donated, claimDue]
+  | removeHook snd a => obtain ⟨_, _, _, rfl⟩ := tx_removeHook_ok h; simp [bonded, donated, claimDue]
+  | donate snd amt =>
+    obtain ⟨_, _, rfl⟩ := tx_donate_ok h
+    simp [bonded, donated, claimDue, Op.sender]
+
+/-! ## supply_conserved, claim_succeeds_run -/
+
+/-- One transaction moves stake tokens between the users and the contract and creates or destroys none. -/
+theorem supply_tx {w w' : World} {blk : Block} {op : Op} {out : List Out}
+    (h : tx w blk op = .ok (w', out)) : w'.held + AMap.sum w'.bal = w.held + AMap.sum w.bal := by
+  have dep : ∀ {h' : Nat} {snd : Addr} {amt : Nat}, Deposited w w' h' snd amt out →
+      w'.held + AMap.sum w'.bal = w.held + AMap.sum w.bal := by
+    intro h' snd amt hd
+    obtain ⟨new, hle, _, _, _, _, hh, hb, _⟩ := hd
+    have := AMap.sum_set w.bal snd (balOf w snd - amt)
+    rw [hh, hb]
+    unfold balOf at *
+    omega
+  cases op with
+  | bond snd coins => obtain ⟨_, _, _, _, _, hd⟩ := tx_bond_ok h; exact dep hd
+  | send snd token amt ok => obtain ⟨_, _, hd⟩ := tx_send_ok h; exact dep hd
+  | receive snd sender amt ok => exact (tx_receive_never h).elim
+  | unbond snd amt => obtain ⟨new, _, _, _, _, hh, hb, _⟩ := tx_unbond_ok h; rw [hh, hb]
+  | claim snd =>
+    obtain ⟨_, hle, _, _, hh, hb, _⟩ := tx_claim_ok h
+    have := AMap.sum_set w.bal snd (balOf w snd + amountSum (matured blk (claimsOf w.st snd)))
+    rw [hh, hb]
+    unfold balOf at *
+    omega
+  | updateAdmin snd a => obtain ⟨_, _, adm, rfl⟩ := tx_updateAdmin_ok h; rfl
+  | addHook snd a => obtain ⟨_, _, _, rfl⟩ := tx_addHook_ok h; rfl
+  | removeHook snd a => obtain ⟨_, _, _, rfl⟩ := tx_removeHook_ok h; rfl
+  | donate snd amt =>
+    obtain ⟨hle, _, rfl⟩ := tx_donate_ok h
+    have := AMap.sum_set w.bal snd (balOf w snd - amt)
+    simp only
+    unfold balOf at *
+    omega
+
+/-- **C10 `backing`, the token side**: over every history the stake tokens held by the contract plus
+those held by the users are constant — the contract neither mints nor burns; in particular its holdings
+never exceed the supply it started from. -/
+theorem supply_conserved (w : World) (ops : List (Block × Op)) :
+    (run w ops).held + AMap.sum (run w ops).bal = w.held + AMap.sum w.bal :=
+  run_inv (fun x => x.held + AMap.sum x.bal = w.held + AMap.sum w.bal)
+    (fun _ _ _ _ _ hi ht => (supply_tx ht).trans hi) rfl ops
+
+/-- `claim_succeeds` along histories from any backed world whose token supply fits `u128`. -/
+theorem claim_succeeds_from {w : World} (hi : Backed w) (hfit : w.held + AMap.sum w.bal ≤ U128_MAX)
+    (ops : List (Block × Op)) (blk : Block) (a : Addr)
+    (hdue : 0 < amountSum (matured blk (claimsOf (run w ops).st a))) :
+    ∃ w' out, tx (run w ops) blk (.claim a) = .ok (w', out) := by
+  have := supply_conserved w ops
+  exact claim_succeeds (backing_from hi ops) (by omega) blk a hdue
+
+/-- **C10 `claim_pays_matured_once`, paying direction over histories**: after any accepted instantiation
+and any history, when the users' token balances at the start sum to at most `u128::MAX` (the supply of
+the stake token fits `u128` — the stated assumption about the token), a `Claim` by an address with a
+positive amount of matured claims succeeds: it can be refused neither for lack of funds nor by overflow.
+(The hypothesis `hfit` of `claim_succeeds` is discharged here.) -/
+theorem claim_succeeds_run {m : InstMsg} {st : State} (h : instantiate m = .ok st) (bal : AMap Addr Nat)
+    (acc : List Addr) (hsupply : AMap.sum bal ≤ U128_MAX) (ops : List (Block × Op)) (blk : Block) (a : Addr)
+    (hdue : 0 < amountSum (matured blk (claimsOf (run (World.init st bal acc) ops).st a))) :
+    ∃ w' out, tx (run (World.init st bal acc) ops) blk (.claim a) = .ok (w', out) :=
+  claim_succeeds_from (backing_init h bal acc) (by simpa [World.init] using hsupply) ops blk a hdue
+
+/-! ## claims_ledger -/
+
+/-- The effect of one transaction of the history on the claims of `a`: a *successful* `Unbond { amt }` of
+`a` at block `blk` appends one claim of `amt` releasing at `period.after(blk)`, a *successful* `Claim` of
+`a` at `blk` keeps exactly the claims not yet expired at `blk`; everything else (other senders, other
+kinds, failed transactions) changes nothing. -/
+def ledgerStep (cfg : Config) (ok : Bool) (blk : Block) (op : Op) (a : Addr) (l : List Claim) : List Claim :=
+  match ok, op with
+  | true, .unbond snd amt => if snd = a then l ++ [⟨amt, cfg.period.after blk⟩] else l
+  | true, .claim snd => if snd = a then waiting blk l else l
+  | _, _ => l
+
+/-- The claims ledger of `a`: fold of `ledgerStep` along the history (success is that of `tx` in the world
+reached so far). -/
+def ledger (cfg : Config) (w : World) (ops : List (Block × Op)) (a : Addr) (l : List Claim) : List Claim :=
+  match ops with
+  | [] => l
+  | o :: rest => ledger cfg (step w o.1 o.2) rest a (ledgerStep cfg (tx w o.1 o.2).isOk o.1 o.2 a l)
+
+theorem cfg_step (w : World) (blk : Block) (op : Op) : (step w blk op).st.cfg = w.st.cfg := by
+  unfold step; split
+  · rename_i w' out ht; exact cfg_tx ht
+  · rfl
+
+theorem claims_step (w : World) (blk : Block) (op : Op) (a : Addr) :
+    claimsOf (step w blk op).st a = ledgerStep w.st.cfg (tx w blk op).isOk blk op a (claimsOf w.st a) := by
+  rcases step_cases w blk op with ⟨w', out, ht, hs, _, hok⟩ | ⟨hs, _, hok⟩
+  · rw [hs, hok, claims_frame ht a]
+    cases op <;> rfl
+  · rw [hs, hok]
+    cases op <;> rfl
+
+/-- The claims ledger from any world. -/
+theorem claims_ledger_from (w : World) (ops : List (Block × Op)) (a : Addr) :
+    claimsOf (run w ops).st a = ledger w.st.cfg w ops a (claimsOf w.st a) := by
+  induction ops generalizing w with
+  | nil => rfl
+  | cons o rest ih =>
+    rw [run_cons, ih, cfg_step, claims_step]
+    rfl
+
+/-- **C10 `claim_pays_matured_once` / `claim_not_early`, the claims ledger over histories**: after any
+accepted instantiation and any history, the claims recorded for `a` are exactly the ledger of the history —
+one claim `⟨amt, unbonding_period.after(block)⟩` appended per *successful* `Unbond { amt }` of `a`, in
+order, the expired ones dropped at each *successful* `Claim` of `a`, nothing else.  So a claim is created
+once per unbond, is removed (= paid, `claim_pays_matured_once`) at most once, and no claim appears that no
+unbond created. -/
+theorem claims_ledger {m : InstMsg} {st : State} (h : instantiate m = .ok st) (bal : AMap Addr Nat)
+    (acc : List Addr) (ops : List (Block × Op)) (a : Addr) :
+    claimsOf (run (World.init st bal acc) ops).st a = ledger st.cfg (World.init st bal acc) ops a [] := by
+  rw [claims_ledger_from]
+  simp [instantiate] at h
+  obtain ⟨adm, _, rfl⟩ := h
+  rfl
+
+/-! ## paid_after_period -/
+
+/-- Every claim on the books was created by a *successful* unbond of its owner at an identified position
+of the history. -/
+def Origin (w0 : World) (ops : List (Block × Op)) (a : Addr) (c : Claim) : Prop :=
+  ∃ pre b amt post, ops = pre ++ (b, Op.unbond a amt) :: post ∧
+    (tx (run w0 pre) b (.unbond a amt)).isOk = true ∧ c = ⟨amt, w0.st.cfg.period.after b⟩
+
+theorem origin_snoc {w0 : World} {ops : List (Block × Op)} {a : Addr} {c : Claim} (o : Block × Op)
+    (h : Origin w0 ops a c) : Origin w0 (ops ++ [o]) a c := by
+  obtain ⟨pre, b, amt, post, e, hok, hc⟩ := h
+  exact ⟨pre, b, amt, post ++ [o], by simp [e], hok, hc⟩
+
+theorem origin_run (w0 : World) (h0 : ∀ a, claimsOf w0.st a = []) (ops : List (Block × Op)) :
+    ∀ a c, c ∈ claimsOf (run w0 ops).st a → Origin w0 ops a c := by
+  induction ops using List.rev_induction with
+  | nil => intro a c hc; simp [h0 a] at hc
+  | snoc ops o ih =>
+    intro a c hc
+    rw [run_append, run_cons, run_nil, claims_step, cfg_run] at hc
+    obtain ⟨blk, op⟩ := o
+    have old : ∀ c, c ∈ claimsOf (run w0 ops).st a → Origin w0 (ops ++ [(blk, op)]) a c :=
+      fun c hc => origin_snoc _ (ih a c hc)
+    cases hok : (tx (run w0 ops) blk op).isOk with
+    | false => rw [hok] at hc; exact old c (by cases op <;> exact hc)
+    | true =>
+      rw [hok] at hc
+      cases op with
+      | unbond snd amt =>
+        simp only [ledgerStep] at hc
+        split at hc
+        · rename_i e; subst e
+          rcases List.mem_append.mp hc with hc | hc
+          · exact old c hc
+          · simp at hc
+            exact ⟨ops, blk, amt, [], rfl, hok, hc⟩
+        · exact old c hc
+      | claim snd =>
+        simp only [ledgerStep] at hc
+        split at hc
+        · exact old c (by simp [waiting] at hc; exact hc.1)
+        · exact old c hc
+      | bond _ _ => exact old c hc
+      | send _ _ _ _ => exact old c hc
+      | receive _ _ _ _ => exact old c hc
+      | updateAdmin _ _ => exact old c hc
+      | addHook _ _ => exact old c hc
+      | removeHook _ _ => exact old c hc
+      | donate _ _ => exact old c hc
+
+/-- The whole unbonding period has passed between block `b` and block `blk`. -/
+def PeriodPassed (d : Duration) (b blk : Block) : Prop :=
+  match d with
+  | .height n => b.height + n ≤ blk.height
+  | .time secs => b.time + secs * 1000000000 ≤ blk.time
+
+/-- **C10 `claim_not_early`, end to end**: after any accepted instantiation and any history `ops`, when a
+`Claim` by `a` at block `blk` succeeds, it pays `a` exactly the sum of the claims `c` that it removes, and
+every one of them was created by a *successful* `Unbond { amt }` of `a` itself at an identified position
+of the history, at a block `b`, has that amount, and the whole unbonding period (blocks or seconds, as
+configured) has passed between `b` and `blk`.  Nothing is ever paid that was not unbonded by the payee,
+and nothing before the delay. -/
+theorem paid_after_period {m : InstMsg} {st : State} (h : instantiate m = .ok st) (bal : AMap Addr Nat)
+    (acc : List Addr) (ops : List (Block × Op)) (blk : Block) (a : Addr) {w' : World} {out : List Out}
+    (hc : tx (run (World.init st bal acc) ops) blk (.claim a) = .ok (w', out)) :
+    out = [payout st.cfg.denom a (amountSum (matured blk (claimsOf (run (World.init st bal acc) ops).st a)))] ∧
+    claimsOf w'.st a = waiting blk (claimsOf (run (World.init st bal acc) ops).st a) ∧
+    ∀ c ∈ matured blk (claimsOf (run (World.init st bal acc) ops).st a),
+      ∃ pre b amt post, ops = pre ++ (b, Op.unbond a amt) :: post ∧
+        (tx (run (World.init st bal acc) pre) b (.unbond a amt)).isOk = true ∧
+        c = ⟨amt, st.cfg.period.after b⟩ ∧ PeriodPassed st.cfg.period b blk := by
+  obtain ⟨_, ho, hw, _⟩ := claim_pays_matured_once hc
+  have hcfg : (run (World.init st bal acc) ops).st.cfg = st.cfg := cfg_run _ _
+  rw [hcfg] at ho
+  refine ⟨ho, hw, ?_⟩
+  intro c hm
+  have hm' := List.mem_filter.mp hm
+  have h0 : ∀ a, claimsOf (World.init st bal acc).st a = [] := by
+    intro a
+    simp [instantiate] at h
+    obtain ⟨adm, _, rfl⟩ := h
+    rfl
+  obtain ⟨pre, b, amt, post, e, hok, hce⟩ := origin_run _ h0 ops a c hm'.1
+  refine ⟨pre, b, amt, post, e, hok, hce, ?_⟩
+  have hexp := hm'.2
+  rw [hce] at hexp
+  exact (after_isExpired st.cfg.period b blk).mp hexp
+
+/-! ## Per-user accounting over histories: stake ledger, claims ledger in value, balance ledger -/
+
+/-- Stake tokens the messages `out` pay to `a` (bank sends / cw20 transfers addressed to `a`). -/
+def paidTo (a : Addr) : List Out → Nat
+  | [] => 0
+  | .bank to amt _ :: rest => (if to = a then amt else 0) + paidTo a rest
+  | .cw20Transfer _ to amt :: rest => (if to = a then amt else 0) + paidTo a rest
+  | .hook _ _ _ _ :: rest => paidTo a rest
+
+theorem paidTo_append (a : Addr) (x y : List Out) : paidTo a (x ++ y) = paidTo a x + paidTo a y := by
+  induction x with
+  | nil => simp [paidTo]
+  | cons o rest ih => cases o <;> simp [paidTo, ih] <;> omega
+
+theorem paidTo_hooks (a : Addr) {out : List Out} (hh : ∀ o ∈ out, ∃ hk k old nw, o = Out.hook hk k old nw) :
+    paidTo a out = 0 := by
+  induction out with
+  | nil => rfl
+  | cons o rest ih =>
+    obtain ⟨hk, k, old, nw, rfl⟩ := hh o (by simp)
+    simp [paidTo, ih (fun o ho => hh o (by simp [ho]))]
+
+theorem paidTo_payout (a : Addr) (d : Denom) (to : Addr) (amt : Nat) :
+    paidTo a [payout d to amt] = if to = a then amt else 0 := by
+  cases d <;> simp [payout, paidTo]
+
+/-- Σ of `f op a` over the *successful* transactions of a history (`f` = `bonded`, `unbonded`, `donated`). -/
+def flow (f : Op → Addr → Nat) (a : Addr) (w : World) : List (Block × Op) → Nat
+  | [] => 0
+  | o :: rest => (if (tx w o.1 o.2).isOk then f o.2 a else 0) + flow f a (step w o.1 o.2) rest
+
+/-- The messages of a successful transaction pay `a` exactly what its own `Claim` is due; bonds and unbonds
+emit only hook notifications. -/
+theorem paid_tx {w w' : World} {blk : Block} {op : Op} {out : List Out}
+    (h : tx w blk op = .ok (w', out)) (a : Addr) : paidTo a out = claimDue w blk op a := by
+  cases op with
+  | bond snd coins =>
+    obtain ⟨_, _, _, _, _, new, _, _, _, hu, _⟩ := tx_bond_ok h
+    rw [(um_pair hu).2, paidTo_hooks a (um_out_hooks _ _ _ _)]; rfl
+  | send snd token amt ok =>
+    obtain ⟨_, _, new, _, _, _, hu, _⟩ := tx_send_ok h
+    rw [(um_pair hu).2, paidTo_hooks a (um_out_hooks _ _ _ _)]; rfl
+  | receive snd sender amt ok => exact (tx_receive_never h).elim
+  | unbond snd amt =>
+    obtain ⟨new, _, _, hu, _⟩ := tx_unbond_ok h
+    rw [(um_pair hu).2, paidTo_hooks a (um_out_hooks _ _ _ _)]; rfl
+  | claim snd =>
+    obtain ⟨_, _, ho, _⟩ := tx_claim_ok h
+    rw [ho, paidTo_payout]
+    simp only [claimDue]
+    split
+    · rename_i e; subst e; rfl
+    · rfl
+  | updateAdmin snd x => obtain ⟨_, ho, _⟩ := tx_updateAdmin_ok h; rw [ho]; rfl
+  | addHook snd x => obtain ⟨_, ho, _⟩ := tx_addHook_ok h; rw [ho]; rfl
+  | removeHook snd x => obtain ⟨_, ho, _⟩ := tx_removeHook_ok h; rw [ho]; rfl
+  | donate snd amt => obtain ⟨_, ho, _⟩ := tx_donate_ok h; rw [ho]; rfl
+
+/-- One transaction, the claims of `a` in value: what `a` unbonds becomes a claim, what a `Claim` pays
+leaves the claims. -/
+theorem claims_value_tx {w w' : World} {blk : Block} {op : Op} {out : List Out}
+    (h : tx w blk op = .ok (w', out)) (a : Addr) :
+    amountSum (claimsOf w'.st a) + claimDue w blk op a = amountSum (claimsOf w.st a) + unbonded op a := by
+  rw [claims_frame h a]
+  cases op with
+  | unbond snd amt =>
+    simp only [claimDue, unbonded]
+    split
+    · simp [amountSum]
+    · rfl
+  | claim snd =>
+    simp only [claimDue, unbonded]
+    split
+    · have := amountSum_matured_waiting blk (claimsOf w.st a); omega
+    · rfl
+  | bond _ _ => rfl
+  | send _ _ _ _ => rfl
+  | receive _ _ _ _ => rfl
+  | updateAdmin _ _ => rfl
+  | addHook _ _ => rfl
+  | removeHook _ _ => rfl
+  | donate _ _ => rfl
+
+/-- **C10 `stake_frame`, ledger over histories**: after any history from any world, the stake of `a` plus
+everything `a` successfully unbonded equals its initial stake plus everything `a` successfully bonded
+(native `Bond` or cw20 `Send`).  Failed transactions and other users' transactions contribute nothing. -/
+theorem stake_ledger (a : Addr) (w : World) (ops : List (Block × Op)) :
+    stakeOf (run w ops).st a + flow unbonded a w ops = stakeOf w.st a + flow bonded a w ops := by
+  induction ops generalizing w with
+  | nil => rfl
+  | cons o rest ih =>
+    have ih' := ih (step w o.1 o.2)
+    simp only [run_cons, flow]
+    rcases step_cases w o.1 o.2 with ⟨w', out, ht, hs, _, hok⟩ | ⟨hs, _, hok⟩
+    · have := (stake_frame ht a).1
+      rw [hs] at ih' ⊢; rw [hok]; simp only [if_true]; omega
+    · rw [hs] at ih' ⊢; rw [hok]; simp only [Bool.false_eq_true, if_false]; omega
+
+/-- **C10 `claim_pays_matured_once`, "once" in value**: after any history, everything paid out to `a` plus
+`a`'s unreleased claims equals its initial claims plus everything `a` successfully unbonded: every unbonded
+token is either still waiting as a claim or was paid out — exactly once. -/
+theorem claims_value_ledger (a : Addr) (w : World) (ops : List (Block × Op)) :
+    paidTo a (outs w ops) + amountSum (claimsOf (run w ops).st a)
+      = amountSum (claimsOf w.st a) + flow unbonded a w ops := by
+  induction ops generalizing w with
+  | nil => simp [paidTo, flow]
+  | cons o rest ih =>
+    have ih' := ih (step w o.1 o.2)
+    simp only [run_cons, outs_cons, flow, paidTo_append]
+    rcases step_cases w o.1 o.2 with ⟨w', out, ht, hs, ho, hok⟩ | ⟨hs, ho, hok⟩
+    · have h1 := claims_value_tx ht a
+      have h2 := paid_tx ht a
+      rw [hs] at ih' ⊢; rw [hok, ho]; simp only [if_true]; omega
+    · rw [hs] at ih' ⊢; rw [hok, ho]; simp only [Bool.false_eq_true, if_false, paidTo]; omega
+
+/-- **C10 `stake_frame`, the payer's side over histories**: the stake-token balance of `a` after any
+history is its initial balance, minus what it successfully bonded and plainly transferred to the contract,
+plus what the contract paid it. -/
+theorem balance_ledger (a : Addr) (w : World) (ops : List (Block × Op)) :
+    balOf (run w ops) a + flow bonded a w ops + flow donated a w ops = balOf w a + paidTo a (outs w ops) := by
+  induction ops generalizing w with
+  | nil => simp [paidTo, flow]
+  | cons o rest ih =>
+    have ih' := ih (step w o.1 o.2)
+    simp only [run_cons, outs_cons, flow, paidTo_append]
+    rcases step_cases w o.1 o.2 with ⟨w', out, ht, hs, ho, hok⟩ | ⟨hs, ho, hok⟩
+    · have h1 := (balance_frame ht a).1
+      have h2 := paid_tx ht a
+      rw [hs] at ih' ⊢; rw [hok, ho]; simp only [if_true]; omega
+    · rw [hs] at ih' ⊢; rw [hok, ho]; simp only [Bool.false_eq_true, if_false, paidTo]; omega
+
+/-- **C10 value conservation per user** (`backing` and "exactly the amount", address by address): after any
+accepted instantiation and any history, for every address
+`paid out to a + unreleased claims of a + stake of a = everything a successfully bonded`.
+Nobody gets out more than they put in, and nothing they put in disappears. -/
+theorem value_conservation {m : InstMsg} {st : State} (h : instantiate m = .ok st) (bal : AMap Addr Nat)
+    (acc : List Addr) (ops : List (Block × Op)) (a : Addr) :
+    paidTo a (outs (World.init st bal acc) ops)
+      + amountSum (claimsOf (run (World.init st bal acc) ops).st a)
+      + stakeOf (run (World.init st bal acc) ops).st a
+      = flow bonded a (World.init st bal acc) ops := by
+  have h1 := stake_ledger a (World.init st bal acc) ops
+  have h2 := claims_value_ledger a (World.init st bal acc) ops
+  have h0 : stakeOf (World.init st bal acc).st a = 0 ∧ amountSum (claimsOf (World.init st bal acc).st a) = 0 := by
+    simp [instantiate] at h
+    obtain ⟨adm, _, rfl⟩ := h
+    exact ⟨rfl, rfl⟩
+  omega
+
+/-! ## Non-vacuity of the history-level theorems -/
+
+theorem inst_cfgMsg : instantiate cfgMsg = .ok (stOf cfgMsg) := rfl
+
+/-- cw20 stake token, unbonding period of 60 seconds -/
+def cw20Msg : InstMsg := ⟨.cw20 "tok", 10, 20, .time 60, none⟩
+theorem inst_cw20Msg : instantiate cw20Msg = .ok (stOf cw20Msg) := rfl
+def tblk (secs : Nat) : Block := ⟨100 + secs, 1000 + secs * 1000000000⟩
+
+/-- carol sends 50 of the configured cw20 token with `Bond {}`, tries the wrong token, a garbled payload and
+a forged `Receive`, unbonds 30 at t = 0 s, claims too early at t = 59 s, claims at t = 60 s. -/
+def cw20Ops : List (Block × Op) :=
+  [(tblk 0, .send "carol" "tok" 50 true), (tblk 0, .send "carol" "other" 50 true),
+   (tblk 0, .send "carol" "tok" 5 false), (tblk 0, .receive "carol" ⟨true, "carol"⟩ 1000 true),
+   (tblk 0, .unbond "carol" 30), (tblk 59, .claim "carol"), (tblk 60, .claim "carol")]
+
+def cw20World0 : World := World.init (stOf cw20Msg) [("carol", 80)] []
+def cw20World : World := run cw20World0 cw20Ops
+
+/-- cw20 + time-based configuration: only the configured token bonds, the claim is refused at 59 s and paid
+at 60 s -/
+example : stakeOf cw20World.st "carol" = 20 ∧ weightOf cw20World.st "carol" = some 2 ∧
+    claimsOf cw20World.st "carol" = [] ∧ balOf cw20World "carol" = 60 ∧ cw20World.held = 20 ∧
+    outs cw20World0 cw20Ops = [.cw20Transfer "tok" "carol" 30] := by decide
+example : ((List.range 7).map (fun i => (tx (run cw20World0 (cw20Ops.take i)) (cw20Ops[i]!).1 (cw20Ops[i]!).2).isOk))
+    = [true, false, false, false, true, false, true] := by decide
+
+/-- `claims_ledger`, `paid_after_period`, `value_conservation` on the cw20 history (5 of 6 ops, then the
+successful claim at 60 s). -/
+example : claimsOf (run cw20World0 (cw20Ops.take 6)).st "carol"
+    = ledger (stOf cw20Msg).cfg cw20World0 (cw20Ops.take 6) "carol" [] :=
+  claims_ledger inst_cw20Msg _ _ _ _
+example : ledger (stOf cw20Msg).cfg cw20World0 (cw20Ops.take 6) "carol" [] = [⟨30, .atTime 60000001000⟩] := by
+  decide
+example : ∃ w' out, tx (run cw20World0 (cw20Ops.take 6)) (tblk 60) (.claim "carol") = .ok (w', out) ∧
+    ∀ c ∈ matured (tblk 60) (claimsOf (run cw20World0 (cw20Ops.take 6)).st "carol"),
+      ∃ pre b amt post, cw20Ops.take 6 = pre ++ (b, Op.unbond "carol" amt) :: post ∧
+        (tx (run cw20World0 pre) b (.unbond "carol" amt)).isOk = true ∧
+        c = ⟨amt, (stOf cw20Msg).cfg.period.after b⟩ ∧ PeriodPassed (stOf cw20Msg).cfg.period b (tblk 60) := by
+  obtain ⟨w', out, ht⟩ := claim_succeeds_run inst_cw20Msg [("carol", 80)] [] (by decide) (cw20Ops.take 6)
+    (tblk 60) "carol" (by decide)
+  exact ⟨w', out, ht, (paid_after_period inst_cw20Msg _ _ _ _ _ ht).2.2⟩
+example : paidTo "carol" (outs cw20World0 cw20Ops) = 30 ∧ flow bonded "carol" cw20World0 cw20Ops = 50 ∧
+    flow unbonded "carol" cw20World0 cw20Ops = 30 := by decide
+
+/-- native / height-based history of the first round: ledgers of alice and bob -/
+example : paidTo "alice" (outs (World.init (stOf cfgMsg) [("alice", 100), ("bob", 5)] []) demoOps) = 20 ∧
+    flow bonded "alice" (World.init (stOf cfgMsg) [("alice", 100), ("bob", 5)] []) demoOps = 57 ∧
+    flow donated "bob" (World.init (stOf cfgMsg) [("alice", 100), ("bob", 5)] []) demoOps = 3 := by decide
+example := value_conservation inst_cfgMsg [("alice", 100), ("bob", 5)] [] demoOps "alice"
+example := balance_ledger "bob" (World.init (stOf cfgMsg) [("alice", 100), ("bob", 5)] []) demoOps
+
+/-- a contract that already held 7 tokens when instantiated stays backed; its surplus is 7 + bob's 3 -/
+example : (run (initFunded (stOf cfgMsg) 7 [("alice", 100), ("bob", 5)] []) demoOps).held = 47 ∧
+    (run (initFunded (stOf cfgMsg) 7 [("alice", 100), ("bob", 5)] []) demoOps).extra = 10 := by decide
+example := backing_prefunded inst_cfgMsg 7 [("alice", 100), ("bob", 5)] [] demoOps
+
+/-- `balance_frame` / `held_frame` / `supply_tx` on alice's successful claim at height 109 -/
+example : ∃ w' out, tx (run (World.init (stOf cfgMsg) [("alice", 100), ("bob", 5)] []) (demoOps.take 4)) blk9
+    (.claim "alice") = .ok (w', out) ∧ balOf w' "alice" = 63 ∧ w'.held = 40 := by
+  obtain ⟨w', out, ht⟩ := claim_succeeds_run inst_cfgMsg [("alice", 100), ("bob", 5)] [] (by decide)
+    (demoOps.take 4) blk9 "alice" (by decide)
+  refine ⟨w', out, ht, ?_, ?_⟩
+  · have := (balance_frame ht "alice").1
+    have e : balOf (run (World.init (stOf cfgMsg) [("alice", 100), ("bob", 5)] []) (demoOps.take 4)) "alice" = 43 := by
+      decide
+    have e2 : claimDue (run (World.init (stOf cfgMsg) [("alice", 100), ("bob", 5)] []) (demoOps.take 4)) blk9
+        (.claim "alice") "alice" = 20 := by decide
+    simp only [bonded, donated] at this
+    omega
+  · have := (held_frame ht).1
+    have e : (run (World.init (stOf cfgMsg) [("alice", 100), ("bob", 5)] []) (demoOps.take 4)).held = 60 := by decide
+    have e2 : claimDue (run (World.init (stOf cfgMsg) [("alice", 100), ("bob", 5)] []) (demoOps.take 4)) blk9
+        (.claim "alice") "alice" = 20 := by decide
+    simp only [bonded, donated, Op.sender] at this
+    omega
+
+/-- `only_configured_token`, native configuration: a foreign denom, two coins, a zero coin and a cw20 `Send`
+are all refused; exactly one coin of `ustake` is accepted — and the theorem applies to that transaction. -/
+example :
+    let w := World.init (stOf cfgMsg) [("alice", 100)] []
+    (tx w blk0 (.bond "alice" [("uother", 5)])).isOk = false ∧
+    (tx w blk0 (.bond "alice" [("ustake", 5), ("uother", 5)])).isOk = false ∧
+    (tx w blk0 (.bond "alice" [("ustake", 0)])).isOk = false ∧
+    (tx w blk0 (.bond "alice" [])).isOk = false ∧
+    (tx w blk0 (.send "alice" "tok" 5 true)).isOk = false ∧
+    (tx w blk0 (.bond "alice" [("ustake", 5)])).isOk = true := by decide
+example : ∃ w' out, tx (World.init (stOf cfgMsg) [("alice", 100)] []) blk0 (.bond "alice" [("ustake", 5)]) = .ok (w', out) ∧
+    ∃ d amt, (stOf cfgMsg).cfg.denom = .native d ∧ [("ustake", 5)] = [(d, amt)] ∧ amt ≠ 0 := by
+  rcases step_cases (World.init (stOf cfgMsg) [("alice", 100)] []) blk0 (.bond "alice" [("ustake", 5)])
+    with ⟨w', out, ht, _, _, _⟩ | ⟨_, _, hf⟩
+  · exact ⟨w', out, ht, (only_configured_token ht).1 _ _ rfl⟩
+  · exact absurd hf (by decide)
+
+/-! ## "Once", claim by claim: created claims = paid claims + waiting claims (as multisets) -/
+
+/-- The claims a transaction of the history pays to `a`: the matured ones, when it is a successful `Claim`
+of `a`. -/
+def paidStep (w : World) (blk : Block) (op : Op) (a : Addr) : List Claim :=
+  match (tx w blk op).isOk, op with
+  | true, .claim snd => if snd = a then matured blk (claimsOf w.st a) else []
+  | _, _ => []
+
+/-- The claim a transaction of the history creates for `a`: one, when it is a successful `Unbond` of `a`. -/
+def createdStep (w : World) (blk : Block) (op : Op) (a : Addr) : List Claim :=
+  match (tx w blk op).isOk, op with
+  | true, .unbond snd amt => if snd = a then [⟨amt, w.st.cfg.period.after blk⟩] else []
+  | _, _ => []
+
+/-- All claims paid to `a` along a history, in order of payment. -/
+def paidClaims (a : Addr) (w : World) : List (Block × Op) → List Claim
+  | [] => []
+  | o :: rest => paidStep w o.1 o.2 a ++ paidClaims a (step w o.1 o.2) rest
+
+/-- All claims created for `a` along a history, in order of creation. -/
+def createdClaims (a : Addr) (w : World) : List (Block × Op) → List Claim
+  | [] => []
+  | o :: rest => createdStep w o.1 o.2 a ++ createdClaims a (step w o.1 o.2) rest
+
+theorem claims_perm_step (w : World) (blk : Block) (op : Op) (a : Addr) :
+    (paidStep w blk op a ++ claimsOf (step w blk op).st a).Perm (claimsOf w.st a ++ createdStep w blk op a) := by
+  rw [claims_step]
+  unfold paidStep createdStep
+  cases hok : (tx w blk op).isOk with
+  | false => cases op <;> simp [ledgerStep]
+  | true =>
+    cases op with
+    | unbond snd amt =>
+      simp only [ledgerStep]
+      split <;> simp
+    | claim snd =>
+      simp only [ledgerStep]
+      split
+      · simp only [List.append_nil, matured, waiting]
+        exact List.filter_append_perm _ _
+      · simp
+    | bond _ _ => simp [ledgerStep]
+    | send _ _ _ _ => simp [ledgerStep]
+    | receive _ _ _ _ => simp [ledgerStep]
+    | updateAdmin _ _ => simp [ledgerStep]
+    | addHook _ _ => simp [ledgerStep]
+    | removeHook _ _ => simp [ledgerStep]
+    | donate _ _ => simp [ledgerStep]
+
+/-- **C10 `claim_pays_matured_once`, "once" claim by claim**: after any history from any world, the claims
+paid to `a` together with the claims still waiting for `a` are — as multisets — exactly `a`'s initial claims
+together with the claims created by `a`'s successful unbonds.  So every created claim is either still waiting
+or was paid, never both, never twice, and none is lost; nothing is paid that was not created. -/
+theorem claims_paid_once (a : Addr) (w : World) (ops : List (Block × Op)) :
+    (paidClaims a w ops ++ claimsOf (run w ops).st a).Perm (claimsOf w.st a ++ createdClaims a w ops) := by
+  induction ops generalizing w with
+  | nil => simp [paidClaims, createdClaims]
+  | cons o rest ih =>
+    have h1 := claims_perm_step w o.1 o.2 a
+    have h2 := ih (step w o.1 o.2)
+    simp only [paidClaims, createdClaims, run_cons]
+    calc (paidStep w o.1 o.2 a ++ paidClaims a (step w o.1 o.2) rest ++ claimsOf (run (step w o.1 o.2) rest).st a)
+        = paidStep w o.1 o.2 a ++ (paidClaims a (step w o.1 o.2) rest ++ claimsOf (run (step w o.1 o.2) rest).st a) := by
+          rw [List.append_assoc]
+      _ |>.Perm (paidStep w o.1 o.2 a ++ (claimsOf (step w o.1 o.2).st a ++ createdClaims a (step w o.1 o.2) rest)) :=
+          List.Perm.append_left _ h2
+      _ = (paidStep w o.1 o.2 a ++ claimsOf (step w o.1 o.2).st a) ++ createdClaims a (step w o.1 o.2) rest := by
+          rw [List.append_assoc]
+      _ |>.Perm ((claimsOf w.st a ++ createdStep w o.1 o.2 a) ++ createdClaims a (step w o.1 o.2) rest) :=
+          List.Perm.append_right _ h1
+      _ = claimsOf w.st a ++ (createdStep w o.1 o.2 a ++ createdClaims a (step w o.1 o.2) rest) := by
+          rw [List.append_assoc]
+
+/-- The tokens the contract's messages pay to `a` are exactly the amounts of the claims paid to `a`. -/
+theorem paidTo_eq_paidClaims (a : Addr) (w : World) (ops : List (Block × Op)) :
+    paidTo a (outs w ops) = amountSum (paidClaims a w ops) := by
+  induction ops generalizing w with
+  | nil => rfl
+  | cons o rest ih =>
+    simp only [outs_cons, paidTo_append, paidClaims, amountSum_append, ih]
+    congr 1
+    unfold paidStep
+    rcases step_cases w o.1 o.2 with ⟨w', out, ht, _, ho, hok⟩ | ⟨_, ho, hok⟩
+    · rw [ho, hok, paid_tx ht a]
+      cases o.2 <;> simp [claimDue, amountSum]
+      split <;> simp
+    · rw [ho, hok]; simp [paidTo, amountSum]
+
+/-- on `demoOps`: alice's one created claim `⟨20, height 105⟩` was paid once (at height 109), none waits -/
+example : paidClaims "alice" (World.init (stOf cfgMsg) [("alice", 100), ("bob", 5)] []) demoOps = [⟨20, .atHeight 105⟩] ∧
+    createdClaims "alice" (World.init (stOf cfgMsg) [("alice", 100), ("bob", 5)] []) demoOps = [⟨20, .atHeight 105⟩] := by
+  decide
 
 end CwPlus.Props.C10
